@@ -167,6 +167,12 @@ fn c07(rng: &mut Rng, out: &mut Fails) {
     let g = romberg(|x| x.powi(4) - x * x, -1., 1., 1e-6, 8); if !close(g, -4. / 15., 1e-6) { fail(out, "romberg", "C07.romberg.tolerance", "x^4 - x^2 on [-1,1], eps 1e-6, 8 levels".into(), format!("{}", g), format!("{}", -4. / 15.)); }
     let g = romberg(|x: f64| x.sin().powi(2), 0., 2. * std::f64::consts::PI, 1e-8, 12); if !close(g, std::f64::consts::PI, 1e-6) { fail(out, "romberg", "C07.romberg.tolerance", "sin^2 on [0, 2pi]".into(), format!("{}", g), format!("{}", std::f64::consts::PI)); }
     // sampled trapezoid = integral of the piecewise-linear interpolant
+    for x in [vec![0., 1., 2.5, 3., 4.], vec![0., 0.25, 0.4, 0.75, 1.0], vec![-2., -1., -0.9, 0.9, 1., 2.], vec![0., 2., 3., 4., 5., 6., 8.]] {
+        let y: Vec<f64> = x.iter().map(|t| 2. * t + 1.).collect(); let n = x.len();
+        let w: f64 = (1..n).map(|i| (y[i] + y[i - 1]) / 2. * (x[i] - x[i - 1])).sum();
+        let g = trapezoid(&y, Some(&x), None);
+        if !close(g, w, 1e-12) { fail(out, "trapezoid", "C07.trapezoid.sum", format!("y={:?} x={:?}", y, x), format!("{}", g), format!("{}", w)); }
+    }
     for case in 0..60 {
         let n = 2 + rng.below(8);
         let mut x = vec![rng.int(-3, 3)]; for _ in 1..n { let l = *x.last().unwrap(); x.push(l + 0.5 * (1 + rng.below(if case % 2 == 0 { 1 } else { 5 })) as f64); }
